@@ -261,3 +261,27 @@ def step (c : Cfg) (s : State) : Op → State
 def run (c : Cfg) (ops : List Op) : State := ops.foldl (step c) {}
 
 end Edzed.OutputAsync
+
+/-! ### `utils.shield_cancel` -/
+namespace Edzed.OutputAsync.Shield
+
+/-- what one `await asyncio.shield(task)` of `shield_cancel` yields -/
+inductive Step (ε ν : Type) where
+  | done (v : ν)            -- the inner task has finished with a value
+  | cancelPending (e : ε)   -- the awaiting task was cancelled (`e`), the inner task is still running
+  | cancelDone (e : ε)      -- cancelled when the inner task is already done ("cancelled from within aw")
+  | fail (e : ε)            -- the inner task raised another exception: it passes through the shield
+  deriving Repr
+
+/-- `shield_cancel(aw)`: the shielded task is awaited again after every cancellation; the LAST cancellation
+    is re-raised when the task has finished; a cancellation that finds the task already done, and any
+    other exception, propagate at once; `none` = still waiting when the script ends -/
+def shieldCancel {ε ν : Type} : List (Step ε ν) → Option ε → Option (Except ε ν)
+  | [], _ => none
+  | .done v :: _, none => some (.ok v)
+  | .done _ :: _, some e => some (.error e)
+  | .cancelPending e :: rest, _ => shieldCancel rest (some e)
+  | .cancelDone e :: _, _ => some (.error e)
+  | .fail e :: _, _ => some (.error e)
+
+end Edzed.OutputAsync.Shield
